@@ -28,34 +28,32 @@ namespace sqf
             using iterator = std::vector<sqf::runtime::value>::iterator;
         private:
             std::vector<sqf::runtime::value> m_value;
-            bool recursion_test_(std::vector<std::shared_ptr<d_array>>& visited)
+            bool recursion_test_(std::vector<const sqf::runtime::data*>& visited) const override
             {
                 for (auto& it : m_value)
                 {
-                    if (it.type() == data_type())
+                    if (it.empty()) { continue; }
+                    // Get child
+                    const sqf::runtime::data* child = it.data().get();
+
+                    // Check if child was visited already
+                    if (std::find(visited.begin(), visited.end(), child) != visited.end())
                     {
-                        // Get child
-                        auto arr = it.data<sqf::types::d_array>();
-
-                        // Check if child was visited already
-                        if (std::find(visited.begin(), visited.end(), arr) != visited.end())
-                        {
-                            // Child already was visited, recursion test failed.
-                            return false;
-                        }
-
-                        // Add child to visited list
-                        visited.push_back(arr);
-
-                        // Check child recursion
-                        if (!arr->recursion_test_(visited))
-                        {
-                            return false;
-                        }
-
-                        // Remove child from visited list
-                        visited.pop_back();
+                        // Child already was visited, recursion test failed.
+                        return false;
                     }
+
+                    // Add child to visited list
+                    visited.push_back(child);
+
+                    // Check child recursion (arrays and hashmaps walk their content)
+                    if (!child->recursion_test_(visited))
+                    {
+                        return false;
+                    }
+
+                    // Remove child from visited list
+                    visited.pop_back();
                 }
                 return true;
             }
@@ -142,7 +140,7 @@ namespace sqf
 
             // Returns true, if no recursion is present.
             // Returns false, if current array state contains a recursion.
-            bool recursion_test() { std::vector<std::shared_ptr<d_array>> vec; return recursion_test_(vec); }
+            bool recursion_test() const { std::vector<const sqf::runtime::data*> vec; return recursion_test_(vec); }
 
 
 
